@@ -919,6 +919,12 @@ func (x *Exec) callWrites(st *State, caller *ssa.Function, region []*ssa.BasicBl
 	var bindings []Val
 	if c.IsInvoke() {
 		con = x.contractForMethod(c)
+		if con == nil {
+			full := "(" + types.TypeString(c.Value.Type(), func(p *types.Package) string { return p.Path() }) + ")." + c.Method.Name()
+			if r := x.ruleForName(full); r != nil && r.NoEffect {
+				return
+			}
+		}
 	} else {
 		callee = c.StaticCallee()
 		if env != nil {
